@@ -207,6 +207,13 @@ def run(ctx):
         return True
 
     paths_ = [pa_ for pa_ in _summ(rm.node) if pa_.end != "raise" and _feasible(pa_)]
+    # a path that moves nothing and reports 0 is the precondition "no threshold has been set yet" - and only that: the test
+    # must be `threshold is None`, a truthiness test also skips the legal threshold 0.0
+    idle_ = [pa_ for pa_ in paths_ if not any(e_[0] == "call" and canon(e_[1].func) == "self.add_to_nested_samples" for e_ in pa_.effects) and L_ not in pa_.env]
+    for pa_ in idle_:
+        g0_ = dict(_gt(pa_, canon))
+        ctx.ob("R-DOM", "C04.3", rm, "a removal that moves nothing is taken only when no threshold has been set (`log_likelihood_threshold is None`) and reports 0", g0_.get("self.log_likelihood_threshold is None") is True and pa_.ret is not None and canon(pa_.ret) == "0", f"guards {sorted(g0_.items())}; returns `{src(pa_.ret) if pa_.ret is not None else None}`")
+    paths_ = [pa_ for pa_ in paths_ if pa_ not in idle_]
     for pa_ in paths_:
         g_ = dict(_gt(pa_, canon))
         moved_ = [canon(e_[1].args[0]) for e_ in pa_.effects if e_[0] == "call" and canon(e_[1].func) == "self.add_to_nested_samples" and e_[1].args]
